@@ -429,14 +429,22 @@ def _judge(case, ref, conc):
         except ChildDied:
             seq = None
         unexplained = []
+        explained = []
         for d in diffs:
             i = d["at_op"]
             if seq is not None and seq[i] == conc["out"][i]:
                 attributed += 1
+                explained.append(d)
             else:
                 unexplained.append(d)
         for d in unexplained[:5]:
             d["kind"] = "outcome_differs_from_sequential"
+            viols.append(d)
+        # what one thread gets depends on what *another* thread did before it: cross-talk between threads, even
+        # though no switch landed inside an operation (the same defect is a history dependence for C08)
+        for d in explained[:3]:
+            d["kind"] = "outcome_depends_on_other_threads_earlier_calls"
+            d["note"] = "reproduced by a purely sequential execution in completion order: also a violation of C08"
             viols.append(d)
     return viols, attributed
 
